@@ -98,7 +98,7 @@ fn downstream_of(job: &TsJob, kind: fn(&TsStage) -> bool, probe: u32) -> bool {
     // probe ids: 0 = source, then one per stage (merge allocates an extra id for its source first)
     let mut id = 0u32;
     for st in &job.stages {
-        if let TsStage::Merge(_) = st {
+        if let TsStage::Merge(_) | TsStage::Zip(_) = st {
             id += 1;
         }
         id += 1;
@@ -115,8 +115,8 @@ fn stage_probe_ids(job: &TsJob) -> Vec<(u32, u32, &TsStage)> {
     let mut cur = 0u32;
     let mut next = 1u32;
     for st in &job.stages {
-        if let TsStage::Merge(_) = st {
-            next += 1; // the merged source's probe
+        if let TsStage::Merge(_) | TsStage::Zip(_) = st {
+            next += 1; // the second source's probe
         }
         v.push((cur, next, st));
         cur = next;
@@ -266,7 +266,7 @@ fn run_mode(ctx: &Ctx, mode: Mode, report: &mut Report, cases: u32, stream: u64)
                 TsStage::KeyedMap(_) => "group_by", TsStage::ReplicateOne => "replication_one", TsStage::Batch(_) => "batch_mode",
                 TsStage::Reorder => "reorder", TsStage::GlobalFold => "fold", TsStage::KeyedFold(_) => "keyed_fold",
                 TsStage::CountWindow { .. } => "count_window", TsStage::EventWindow { .. } => "event_time_window",
-                TsStage::Merge(_) => "merge", TsStage::DropTimestamps => "drop_timestamps",
+                TsStage::Merge(_) => "merge", TsStage::Zip(_) => "zip", TsStage::DropTimestamps => "drop_timestamps",
             }));
         }
         rep.class_if(job.source.iterations > 1, "multi_iteration_source");
@@ -528,7 +528,7 @@ pub fn def() -> CheckDef {
     CheckDef {
         id: "C06",
         level: "exploration",
-        rule: "random timestamped jobs: 1-5 scripted source replicas whose scripts respect the watermark contract (out-of-order within the bound, replicas without watermarks / without data / ending early, explicit FlushBatch), then 1-6 stages out of map, filter, flat_map, shuffle, group_by, replication(One), batch_mode, reorder, fold, keyed fold, count window, event-time window, merge with a second scripted source, drop_timestamps; 2 deployments each; oracle at every probe of every replica, per iteration: after Watermark(t) no element with timestamp <= t and no watermark <= t; non-trivial = some probe saw >= 2 watermarks and the deployment has >= 2 replicas; distinct = hash of (job, configuration)",
+        rule: "random timestamped jobs: 1-5 scripted source replicas whose scripts respect the watermark contract (out-of-order within the bound, replicas without watermarks / without data / ending early, explicit FlushBatch), then 1-6 stages out of map, filter, flat_map, shuffle, group_by, replication(One), batch_mode, reorder, fold, keyed fold, count window, event-time window, merge / zip with a second scripted source, drop_timestamps; 2 deployments each; oracle at every probe of every replica, per iteration: after Watermark(t) no element with timestamp <= t and no watermark <= t; non-trivial = some probe saw >= 2 watermarks and the deployment has >= 2 replicas; distinct = hash of (job, configuration)",
         assumptions: &["arrival interleavings at multi-input blocks are sampled here and owned (lock-step) in C17's frontier model check"],
         modes: |t| vec![("main", t.pick(8, 14)), ("kf", 1)],
         run,
